@@ -1,2 +1,2 @@
-import NipyVerif.Model.C15
-def main : IO Unit := NipyVerif.driverLoop NipyVerif.C15.run
+import NipyVerif.Model.C15All
+def main : IO Unit := NipyVerif.driverLoop NipyVerif.C15.runAll
